@@ -535,6 +535,7 @@ W2_ESSENTIAL = {
     "C06": ["terminated", "killed", "destroy-while-running"],
     "C03": ["start-succeeded", "fork-mode"],
     "C08": ["polled-weeks-after-start", "interrupted-by-signal"],
+    "C18": ["random-long"],
     "C09": ["poll-after-eof", "output-piped"],
     "C17": ["blocking-probe", "stdin-flood", "startup-input-beyond-capacity"],
     "C10": ["output-piped", "start-succeeded"],
